@@ -69,6 +69,15 @@ def neg_stacks():
             for _ in range(k):
                 n = ('un', 'not', n)
             out += [n, ('bin', 'and', C, n), ('bin', 'and', n, XP), ('un', 'not', ('bin', 'or', C, n)), ('quant', 'all', 'k', XS, ('bin', 'and', ('bin', '<', ('var', 'k'), int_lit(2)), n))]
+    # literal False / True inside quantified conjunctions: `forall i in xs: (False and q)` is true on the empty domain, so a
+    # ValueError ("unsatisfiable") is wrong for it; only a top-level False conjunct is unsatisfiable
+    for lit in (FALSE, TRUE, ('un', 'not', TRUE), ('un', 'not', FALSE)):
+        for q in (USE, ('bin', 'and', USE, B)):
+            f1 = ('quant', 'all', 'i', XS, ('bin', 'and', lit, q))
+            f2 = ('quant', 'all', 'i', XS, ('bin', 'and', q, lit))
+            f3 = ('quant', 'all', 'i', XS, ('quant', 'all', 'j', XS, ('bin', 'and', ('bin', '>', ('var', 'j'), VI), lit)))
+            f4 = ('un', 'not', ('quant', 'some', 'i', XS, ('bin', 'or', ('un', 'not', lit), ('un', 'not', q))))
+            out += [f1, f2, f3, f4, ('bin', 'and', C, f1), ('bin', 'and', f2, B), ('bin', 'and', lit, q) if q is not USE else ('bin', 'and', lit, B)]
     return out
 
 
